@@ -30,10 +30,12 @@ def dispatch (cmd : String) (args : List String) : String :=
   | "LOW" => lowCmd args
   | "UID" => uidCmd args
   | "STOP" => stopCmd args
+  | "STOPX" => stopxCmd args
   | "XPT" => xptCmd args
   | "WT" => wtCmd args
   | "CMP" => cmp args
   | "CMPX" => cmpx args
+  | "CMPPAR" => cmppar args
   | "AST" => ast args
   | "ORC" => (match args with
     | "C04" :: rest => orcC04 rest
